@@ -78,6 +78,7 @@ class ParsedContract(object):
         self.entry_hints = []
         self.options = {}
         self.ghost_bindings = {}
+        self.foreign = {}
         self.post_hints = []
         self.canaries = []
         self.pre = []           # ordered entry clauses: requires / split / use / unfold
@@ -120,6 +121,22 @@ class ParsedContract(object):
                     self.post_hints.append(call.args[2])
                 else:
                     self.loop(call.args[0]).hints.append((ast.literal_eval(call.args[1]), call.args[2]))
+            elif kind == 'body_ensures':
+                self.loop(call.args[0]).body_ensures.append(call.args[1])
+            elif kind == 'body_raises':
+                when = None
+                for k in call.keywords:
+                    if k.arg == 'when':
+                        when = k.value
+                self.loop(call.args[0]).body_raises.append((call.args[1], when))
+            elif kind in ('invariant_in', 'hint_in'):
+                tgt = ast.literal_eval(call.args[0])
+                k = ast.literal_eval(call.args[1])
+                ls = self.foreign.setdefault(tgt, {}).setdefault(k, LoopSpec())
+                if kind == 'invariant_in':
+                    ls.invariants.append(call.args[2])
+                else:
+                    ls.hints.append((ast.literal_eval(call.args[2]), call.args[3]))
             elif kind == 'unroll':
                 self.loop(call.args[0]).unroll = ast.literal_eval(call.args[1])
             elif kind == 'ghost':
@@ -504,7 +521,14 @@ def run_unit(cdef, config=None, callee_contracts=None):
     I.global_overrides = dict(config.get('globals', {}))
     I.autosplit = pc.autosplit
     I.auto_unfold = pc.options.get('auto_unfold', True)
+    I.gen_unit = bool(pc.options.get('generator'))
     I.loop_specs = {fn.__code__: pc.loops}
+    for tgt, specs_ in pc.foreign.items():
+        try:
+            ffn, _, _ = resolve_target(tgt)
+            I.loop_specs[ffn.__code__] = specs_
+        except Exception:
+            pass
     I.contract_globals = cdef.fn.__globals__
     uses = {}
     for tgt, cds in (callee_contracts or {}).items():
